@@ -34,7 +34,7 @@ def gates(c, tier):
     for lf in LENFORMS[1:]:
         if c.get("freedom:" + lf, 0) == 0:
             out.append(f"length form {lf} never applied")
-    for k in ("freedom:TRUE!=ff", "freedom:explicit-default:criticality", "freedom:explicit-default:dnAttributes", "freedom:trailing", "freedom:trailing-envelope-[10]", "freedom:trailing-after-all-components",
+    for k in ("freedom:TRUE!=ff", "freedom:explicit-default:criticality", "freedom:explicit-default:dnAttributes", "freedom:trailing", "freedom:empty-controls-element", "freedom:trailing-envelope-[10]", "freedom:trailing-after-all-components",
               "ad-style-all-84", "via:unpack", "via:receive", "via:receive-two-pieces", "systematic"):
         if c.get(k, 0) == 0:
             out.append(f"never applied: {k}")
@@ -173,6 +173,12 @@ def envelope_trailing(r, a):
 def apply_random(root, r, acc_count, p_len=0.35, p_trail=0.25, a=None):
     depths = set()
     nfree = 0
+    if a is not None and not a[3] and len(root.children) == 2 and r.random() < 0.15:
+        # Controls ::= SEQUENCE OF control may be present and empty (A0 00): the same as no controls
+        root.children.append(ber.Node(ber.CTX, True, 0, children=[], kind="EMPTY-SEQ-OF"))
+        acc_count("freedom:empty-controls-element")
+        nfree += 1
+        depths.add(1)
     for n, d in all_nodes(root):
         if r.random() < p_len:
             form = r.choice(LENFORMS[1:])
